@@ -34,7 +34,7 @@ Reset == /\ Ev.ev = "reset"
                     hasref |-> Ev.case.spec.hasref, ref |-> Ev.case.spec.ref]
          /\ prev' = {} /\ cur' = NoFiring /\ hist' = <<>> /\ bad' = FALSE
 
-Skip == /\ Ev.ev \in {"push", "stopped"} /\ UNCHANGED <<cfg, prev, cur, hist, bad>>
+Skip == /\ Ev.ev \in {"push", "stopped", "worker-exit", "coordinator-exit", "timeout"} /\ UNCHANGED <<cfg, prev, cur, hist, bad>>
 
 Fire == /\ Ev.ev = "fire"
         /\ IF bad THEN UNCHANGED <<cfg, prev, cur, hist, bad>>
